@@ -78,6 +78,12 @@ CLAIMS = {
   design_ref="DESIGN.md 3 (C11)",
   note="Trusted: gocv, go/types, SMT solvers; the bounded part is an exhaustive enumeration of a stated finite family on the real code, labelled bounded and never counted in discharged.",
   technique=TECH),
+ "C17": dict(
+  category="other",
+  text=json.load(open(V+"/props/C17.json"))["explanation"],
+  design_ref="DESIGN.md 3 (C17)",
+  note="Trusted: gocv, go/types, SMT solvers; am.Api calls (Time, StateNames, MachineTick) and the wall clock are opaque; Transition getters through their trusted contracts.",
+  technique=TECH),
  "C03": dict(
   category="other",
   text="Contracts on the real transition executor and entry points. Transition.emitEvents is verified (every path, handlers and tracers abstracted by frame contracts) against: the clocks and the active list are assigned only through setActiveStates/recoverFinalPhase (ghost counter 'applied'; frame clause); a Canceled result of a non-auto mutation without a handler fault on a live machine implies the target was never applied (canceled_noop); a check mutation (CanAdd/CanRemove) never applies and never prepends an auto mutation (check_pure); the target is applied at most once (single_apply). setActiveStates (C01) makes the application one step under the write lock. Entry points Add/Remove/Set/CanAdd/CanRemove are verified to return Canceled with no effect when the machine is disposing, backing off or (Exception aside) over the queue limit. statesToSet/setupAccepted/setupExitEnter carry the per-muta",
